@@ -53,7 +53,11 @@ for p in props:
             prev.append(s[:330])
         for f in m.get("files_changed", []):
             files.add(os.path.basename(f))
-    if rnd >= 9:
+    if rnd >= 10:
+        text += """
+ROUND %d STYLE: this round, make each change one that only manifests under THREADS / SCHEDULING or in the thread-parallel code paths (feature `parallel-tempering`, rayon): the serial path and a single-threaded rayon pool must behave exactly as before, while a pool with several worker threads (or a particular number of them, or a particular work split / chunk boundary, or a particular interleaving of two parallel sections) gives a different result from the serial driver or from another thread count: e.g. a reduction whose result depends on the combination order, a `par_iter` over chunks whose boundaries depend on the thread count, thread-local scratch state or a thread-local cache that is warm on one worker and cold on another, a `find_any` / `position_any` / unordered collect, a parallel loop that reads a value another task of the same section writes (through an index computed per chunk, never through unsafe), an accumulator zipped against the wrong slice after a parallel split, per-thread RNG or counter state. The crate forbids `unsafe`, keep it that way. Deterministic demonstrations with explicit `rayon::ThreadPoolBuilder::new().num_threads(k)` pools (k = 1 passes, some k > 1 fails) are preferred; do not use size thresholds, numeric tolerances or call-history tricks this round.
+""" % rnd
+    elif rnd >= 9:
         text += """
 ROUND %d STYLE: this round, make each change one that ordinary straight-line use never exposes and that needs a specific HISTORY to manifest: (a) a MULTI-STEP SEQUENCE of public calls (set an option, run, unset it, run again; clone / snapshot between two particular calls; swap replicas, then convert or restore; add an interaction after steps were taken; change beta / cutoff / fields through setters mid-run; call a single_* step directly before or after timestep; reuse an object after a method returned Err or after a caught panic), where state left behind by an EARLIER call (a cached table, a flag, a counter, a capacity, a hint, a pooled buffer, an offset) is consumed wrongly by a LATER one; or (b) TWO COOPERATING SITES in different functions or files that each look locally correct (one writes a field in new units / new convention / lazily, the other still reads the old one on one path only), so that no single hunk looks wrong; or (c) an ORDER dependence (the result depends on the order in which edges / interactions / replicas were added, or on which replica of a pair is stepped first, or on whether an optional feature was enabled before or after construction). The very first timestep after construction, and any run that never touches the second site / the setter / the option, must behave exactly as before. Do not use size thresholds or numeric tolerances this round.
 """ % rnd
